@@ -1,0 +1,156 @@
+/*
+Verification hooks. Everything in this header expands to nothing unless the
+library (and the user of its header-only parts) is compiled with -DPHOTON_VERIF.
+
+With the guard on, each hook is a load of a global function pointer / table
+that stays null/zero unless a verification harness installs something, so a
+hooked build behaves like a normal build until a harness arms it.
+
+  VERIF_POINT(id)        stall point: the installed handler may spin or sleep
+                         the *OS thread*; it never yields the photon thread.
+  VERIF_COV(id)          relaxed counter, "this path was executed".
+  VERIF_EVENT(id, a, b)  report an event to the installed sink.
+  VERIF_TUNABLE(id)      harness-set integer, 0 = keep the code's constant.
+*/
+#pragma once
+
+#ifdef PHOTON_VERIF
+#include <atomic>
+#include <cstdint>
+
+namespace photon {
+namespace verif {
+
+enum point_id : uint32_t {
+    P_NONE = 0,
+    // thread/thread.cpp
+    P_INTERRUPT_BEFORE_LOCK,        // thread_interrupt: after the unlocked state read
+    P_RESUME_BEFORE_LOCK,           // resume_threads: after reading heap front
+    P_PRELOCKED_INTERRUPT,          // before the stand-by push
+    P_MUTEX_LOCK_AFTER_WAKE,        // mutex::lock: woke up, before owner re-check
+    P_MUTEX_UNLOCK,                 // do_mutex_unlock: before hand-off
+    P_SEM_WAIT_AFTER_DEFER,         // semaphore::wait_interruptible after wait_defer
+    P_SEM_SIGNAL_AFTER_RESUME,      // semaphore::signal after try_resume
+    P_DIE_AFTER_NOTIFY,             // thread::die after notifying the joiner
+    P_JOIN,                         // thread_join
+    P_WS_SCAN,                      // work-stealing scan
+    P_MIGRATE,                      // do_thread_migrate
+    P_QRW_UNLOCK_SHARED,            // qrwlock::__unlock_shared between fetch_sub and spin
+    P_RWLOCK_UNLOCK,                // rwlock::unlock before touching waiters
+    P_WAITQ_RESUME,                 // waitq::resume between reading head and locking it
+    // common/lockfree_queue.h
+    P_RING_PUSH_CLAIMED,            // MPMC push: slot claimed, not yet published
+    P_RING_POP_CLAIMED,             // MPMC pop: slot claimed, not yet released
+    P_RING_BATCH_PUSH_CLAIMED,
+    P_RING_BATCH_POP_CLAIMED,
+    P_RINGCHAN_SEND_AFTER_PUSH,     // RingChannel::send between push and idler load
+    P_RINGCHAN_RECV_BEFORE_IDLE,    // RingChannel::recv between failed pop and idler++
+    P_SPSC_PUSH, P_SPSC_POP,
+    // thread/go.h
+    P_CHAN_SEND_BEFORE_WAIT,        // between failed push and waiter-count++
+    P_CHAN_RECV_BEFORE_WAIT,
+    // thread/workerpool.cpp
+    P_WORKPOOL_AFTER_CREATE,        // between thread_create and thread_yield_to
+    // rpc
+    P_OOO_COLLECT,                  // leader about to collect a follower's body
+    // common/expirecontainer.cpp, objectcachev2.h
+    P_OBJCACHE_RELEASE,             // after dropping the last reference
+    P_OBJCACHEV2_RELEASE,
+    // common/range-lock.h
+    P_RANGELOCK_WAIT,
+    // fs/cache
+    P_CACHE_EVICT, P_CACHE_REFILL,
+    // io
+    P_EPOLL_EVENT,
+    P_MAX = 64
+};
+
+enum cov_id : uint32_t {
+    C_NONE = 0,
+    // thread
+    C_INDIRECT_LOCK_RETRY, C_RESUME_FOUND_STANDBY, C_INTERRUPT_POSTLOCK_OUT,
+    C_MUTEX_CONTEND_AGAIN, C_DEFER_TO_NEW_THREAD, C_CROSS_VCPU_WAKE,
+    C_STEAL_RUNQ, C_STEAL_STANDBYQ, C_MUTEX_HANDOFF, C_MUTEX_TIMEOUT_RET,
+    C_SEM_INTERRUPTED_RESUME, C_SEM_OOO_NONHEAD, C_SLEEPQ_POP_MIDDLE,
+    C_SLEEPQ_WALK, C_MIGRATE, C_THREAD_DIE_JOINABLE, C_JOIN_WAITED,
+    C_RWLOCK_WAIT, C_QRW_SLOWPATH, C_WAITQ_RESUME_ONE,
+    // lockfree
+    C_RING_PUSH_FULL, C_RING_POP_EMPTY, C_RINGCHAN_CONSUMER_SLEPT,
+    C_RINGCHAN_CONSUMER_SIGNALLED, C_RINGCHAN_SENDER_BACKOFF,
+    C_RINGCHAN_RESCUE, C_RING_BATCH_WRAP,
+    // go.h
+    C_CHAN_SEND_WAIT, C_CHAN_RECV_WAIT, C_CHAN_SLOT_OVERWRITE,
+    // workpool
+    C_WORKPOOL_RING_FULL, C_WORKPOOL_NEW_THREAD,
+    // rpc
+    C_OOO_LEADER_COLLECT_OTHER, C_OOO_FOLLOWER_TIMEOUT, C_OOO_UNKNOWN_TAG,
+    C_RPC_BODY,
+    // objcache
+    C_OBJCACHE_EXPIRE, C_OBJCACHE_RECYCLE_WAIT, C_OBJCACHE_CTOR_FAIL,
+    // rangelock
+    C_RANGELOCK_WAITED,
+    // cache
+    C_CACHE_EVICT_OPEN, C_CACHE_REFILL, C_CACHE_FIEMAP_USED, C_CACHE_RANGEMAP_USED,
+    // io
+    C_EPOLL_STALE_EVENT, C_EPOLL_BATCH_FULL, C_EPOLL_BOTH_DIR, C_EPOLL_WAIT_FD,
+    C_MAX = 128
+};
+
+enum event_id : uint32_t {
+    E_NONE = 0,
+    E_OOO_COLLECT_BEGIN, E_OOO_COLLECT_END,     // a = tag, b = thread*
+    E_RPC_BODY_BEGIN, E_RPC_BODY_END,           // a = response iovector*, b = tag
+    E_CHAN_SLOT_OVERWRITE,                      // a = channel*, b = 0
+    E_RING_RESCUE,                              // a = channel*, b = waited us
+    E_SLEEPQ_BAD,                               // a = kind, b = index
+    E_MAX = 32
+};
+
+enum tunable_id : uint32_t {
+    T_NONE = 0,
+    T_RING_RECHECK_US,          // RingChannel periodic re-check period
+    T_CACHE_FIEMAP_MODE,        // 0 auto, 1 force range map, 2 force fiemap
+    T_SLEEPQ_WALK,              // 0 off, n: walk sleep heap every n-th mutation
+    T_MAX = 16
+};
+
+struct hooks_t {
+    void (*point)(uint32_t id);
+    void (*event)(uint32_t id, uint64_t a, uint64_t b);
+    std::atomic<uint64_t> cov[C_MAX];
+    std::atomic<int64_t> tunable[T_MAX];
+};
+
+extern hooks_t g_hooks;
+
+inline void point(uint32_t id) {
+    auto f = g_hooks.point;
+    if (__builtin_expect(!!f, 0)) f(id);
+}
+inline void event(uint32_t id, uint64_t a, uint64_t b) {
+    auto f = g_hooks.event;
+    if (__builtin_expect(!!f, 0)) f(id, a, b);
+}
+inline void cov(uint32_t id) {
+    g_hooks.cov[id].fetch_add(1, std::memory_order_relaxed);
+}
+inline int64_t tunable(uint32_t id) {
+    return g_hooks.tunable[id].load(std::memory_order_relaxed);
+}
+
+}  // namespace verif
+}  // namespace photon
+
+#define VERIF_POINT(id)         ::photon::verif::point(::photon::verif::id)
+#define VERIF_COV(id)           ::photon::verif::cov(::photon::verif::id)
+#define VERIF_EVENT(id, a, b)   ::photon::verif::event(::photon::verif::id, (uint64_t)(a), (uint64_t)(b))
+#define VERIF_TUNABLE(id)       ::photon::verif::tunable(::photon::verif::id)
+
+#else
+
+#define VERIF_POINT(id)         ((void)0)
+#define VERIF_COV(id)           ((void)0)
+#define VERIF_EVENT(id, a, b)   ((void)0)
+#define VERIF_TUNABLE(id)       (0)
+
+#endif
